@@ -369,6 +369,26 @@ func (r *Run) checkListing(fn *Func, over string, rule string) {
 				}
 			}
 		}
+		// a path that never looks at the collection answers with nothing: what it returns otherwise was built
+		// at another time (a list kept from an earlier call) and misses what was stored since
+		looked := false
+		for _, ev := range path.Events {
+			if ev.Kind == EvGuard && ev.GKind == GRange {
+				if c := r.P.Canon(ev.Fn, ev.Over); c == over || "rangeval("+c+")" == over {
+					looked = true // (an outer collection without elements has no inner ones to go over)
+				}
+			}
+			if ev.Kind == EvCall && ev.Call != nil {
+				if kind, m := seqOverMap(ev.Fn.Info(), ev.Call); kind == "values" && r.P.Canon(ev.Fn, m) == over {
+					looked = true
+				}
+			}
+		}
+		if !looked {
+			ret := r.retCanon(fn, path)
+			empty := len(ret) == 0 || ret[0] == "nil" || strings.HasPrefix(ret[0], "zero") || strings.HasPrefix(ret[0], "make(") || strings.HasPrefix(ret[0], "lit:")
+			r.CheckT(rule, fn.Name+":built-now", empty, fn.Body.Pos(), path, "a path answers the listing with %v without going over %s in this call", ret, over)
+		}
 		for i, ev := range path.Events {
 			if ev.Kind != EvGuard || ev.GKind != GRange || !ev.Val {
 				continue
